@@ -44,7 +44,7 @@ def shards(tier):
 def required_counters(tier):
     return {'judged:inputs-unchanged': 1000, 'judged:deterministic': 1000, 'judged:fresh-interpreter': 20, 'judged:module-state-unchanged': 1000,
             'judged:parse-independent-of-previous-parse': 50, 'op:serialize': 50, 'op:write': 20, 'op:parse': 50, 'op:to_mask': 50,
-            'op:contains': 50, 'op:to_sky': 20, 'op:rotate': 20, 'op:as_artist': 20, 'op:mask-apply': 20}
+            'op:contains': 50, 'op:to_sky': 20, 'op:rotate': 20, 'op:as_artist': 20, 'op:mask-apply': 20, 'tables-read-from-a-fits-file-by-the-caller': 5, 'writes-repeated-in-another-second': 3}
 
 
 PIX_CLASSES = gen.ALL_PIX
@@ -86,7 +86,7 @@ def generate(rng, tier, shard, nshards):
         ops = []
         for _ in range(rng.randint(8, 30)):
             ops.append({'op': rng.choice(OPS), 'i': rng.randrange(100), 'j': rng.randrange(100), 'k': rng.randrange(2 ** 31)})
-        probes = [{'op': rng.choice(['serialize', 'serialize', 'parse', 'contains', 'to_mask', 'to_sky', 'rotate', 'bounding_box', 'area', 'as_artist']),
+        probes = [{'op': rng.choice(['serialize', 'serialize', 'parse', 'write', 'contains', 'to_mask', 'to_sky', 'rotate', 'bounding_box', 'area', 'as_artist']),
                    'i': rng.randrange(100), 'j': rng.randrange(100), 'k': rng.randrange(2 ** 31)} for _ in range(12)]
         yield {'lane': 'history', 'pool': make_pool_spec(rng), 'ops': ops, 'probes': probes,
                'fresh': (i % (10 if tier == 'quick' else 12) == 0), 'rs': rng.randrange(2 ** 31)}
@@ -100,6 +100,8 @@ class Pool:
         from vmon.checks.c06 import build_sky_leaf
         self.spec = spec
         self.workdir = workdir
+        import collections
+        self.notes = collections.Counter()
         self.wcs = S.build(spec['wcs'])
         self.pix = [S.build(s) for s in spec['pix']]
         scale = spec['wcs']['scale']
@@ -381,7 +383,20 @@ def do_op(pool, op):
                         return name, RuntimeError('FAILED-WRITE-TOUCHED-DESTINATION')
                     return name, e
                 pool.files[fmt] = path
-                return name, open(path, 'rb').read() if fmt != 'fits' else os.path.getsize(path)
+                if op['k'] % 8 == 1 or (fmt == 'fits' and op['k'] % 4 == 1):
+                    # the same write a moment later (the wall clock has moved on to another second): the same file
+                    import time
+                    first = open(path, 'rb').read()
+                    t0 = int(time.time())
+                    while int(time.time()) == t0:
+                        time.sleep(0.05)
+                    target.write(path + '.again', format=fmt, overwrite=True, **kw)
+                    pool.notes['writes-repeated-in-another-second'] += 1
+                    again = open(path + '.again', 'rb').read()
+                    os.remove(path + '.again')
+                    if again != first:
+                        return name, RuntimeError('WRITE-DEPENDS-ON-THE-CLOCK')
+                return name, open(path, 'rb').read()          # the file written is the result (for every format: byte for byte)
             if name == 'parse':
                 # the input of a parse never depends on earlier operations of the history
                 if fmt == 'fits' or op['k'] % 2:
@@ -398,6 +413,13 @@ def do_op(pool, op):
                     data.replace_column('SHAPE', Column(names, name='SHAPE', description='shape of the region'))
                     data['X'].description = 'x positions'
                     data.meta['ORIGIN'] = 'user'
+                if fmt == 'fits' and op['k'] % 8 in (2, 5) and len(data):
+                    # the table as the caller read it from a FITS file with astropy (columns in FITS byte order, views of the file's records)
+                    from astropy.table import QTable
+                    tpath = os.path.join(pool.workdir, 'user-table.fits')
+                    data.write(tpath, format='fits', overwrite=True)
+                    data = QTable.read(tpath)
+                    pool.notes['tables-read-from-a-fits-file-by-the-caller'] += 1
                 try:
                     tfp = rfp(data) if fmt == 'fits' else None
                     out = Regions.parse(data, format=fmt).regions
@@ -481,10 +503,15 @@ def run_case(case, obs):
                 fam, res = op['op'], exc
                 obs.count('op-raised:' + op['op'])
             obs.count('op:' + fam)
+            for nk, nv in pool.notes.items():
+                obs.count(nk, nv)
+            pool.notes.clear()
             if isinstance(res, RuntimeError) and str(res) == 'INPUT-TABLE-MUTATED':
                 obs.violation('input-mutated:parse', f'operation {op}: Regions.parse changed the FITS table it was given')
             if isinstance(res, RuntimeError) and str(res) == 'HEADER-ARGUMENT-MUTATED':
                 obs.violation('input-mutated:write', f'operation {op}: write(format="fits", header=h) changed the header object it was given')
+            if isinstance(res, RuntimeError) and str(res) == 'WRITE-DEPENDS-ON-THE-CLOCK':
+                obs.violation('not-deterministic:write', f'operation {op}: the same write repeated in the next second produced a different file')
             if isinstance(res, RuntimeError) and str(res) == 'FAILED-WRITE-TOUCHED-DESTINATION':
                 obs.violation('failed-write-leaves-trace', f'operation {op}: a write that raised created / changed the destination file (later calls see it)')
             after = pool.fingerprints()
